@@ -171,11 +171,8 @@ class aio_exception_handler:
             yield "no-exception-in-the-context-left-to-the-default-handler", both(len(defaults) == 1 and defaults[0][1] is a.context, not stops, not cancels)
             yield "nothing-kept-nothing-forgotten", both(s._exc is st.ghost["exc_at_entry"], s._idle_asyncio_handle is st.ghost["handle_at_entry"])
             return
-        # FAILS-ON-TREE: a callback raising an exception whose instance is falsy, e.g.
-        #   class Quiet(Exception):  __bool__ = lambda self: False
-        #   evl = urwid.AsyncioEventLoop(loop=asyncio.new_event_loop()); evl.alarm(0, <raise Quiet()>); evl.run()
-        # `if exc := context.get("exception")` takes it for "no exception": the loop is not stopped, the exception is
-        # only logged by asyncio's default handler and run() never raises it.
+        # (an exception whose instance is falsy -- class Quiet(Exception): __bool__ = lambda self: False -- is an
+        # exception all the same: fixed in /repo 8c89c02, `is not None`; before, it was taken for "no exception")
         yield "any-exception-of-a-callback-stops-the-loop", both(len(stops) == 1, not defaults)
         yield "a-pending-idle-pass-is-cancelled-and-forgotten", both(
             neg(_has(s._idle_asyncio_handle)), s.ghost_idle_calls == 0,
@@ -210,8 +207,8 @@ def _run_claims(s, exc, sched_calls):
     if sched_calls[0] == "sched.set_exception_handler":
         h = [ev for ev in st.trace if ev[0] == "sched.set_exception_handler"]
         yield "with-urwids-exception-handler-installed", len(h) == 1 and isinstance(h[0][1], FnVal) and h[0][1].ref.node.name == "_exception_handler" and h[0][1].bound is s
-    # FAILS-ON-TREE (asyncio, tornado, twisted alike): `if self._exc:` -- a kept exception whose instance is falsy
-    # (class with __bool__ / __len__) is neither raised nor forgotten: run() returns normally.
+    # (a kept exception whose instance is falsy -- class with __bool__ / __len__ -- is raised like any other: fixed in
+    # /repo 8c89c02, `if self._exc is not None`; before, run() returned normally and kept it)
     if exc is None:
         yield "returns-only-if-no-exception-was-kept", kept is None
     else:
